@@ -337,11 +337,12 @@ def plan_requests(rng, plan, n_random, covered, cap):
 
 def one_project(ctx, exe_tables, proj, tag, n_random, covered, cap):
     rng = ctx.rng
-    d = os.path.join(ctx.work, "probe_" + tag)
+    # one directory and one package name per (project kind, seed): concurrent runs never share a crate
+    d = os.path.join(ctx.work, "probe_%s_s%d" % (tag, ctx.seed))
     touch_list = sc.touchables(proj)
     if len(touch_list) > 400:
         touch_list = rng.sample(touch_list, 400)
-    name = "c17_probe_" + tag
+    name = "c17_probe_%s_s%d" % (tag, ctx.seed)
     sc.write_probe(proj, d, touch_list, name)
     # expected tables: the parser's string table of every unit (what the macro bakes into STRINGS)
     rc, out, err = core.sh([exe_tables], input="%s\t%s\n" % (d, os.path.join(d, "out_tables")), timeout=300)
@@ -446,9 +447,17 @@ def run(ctx):
     not_intact = [m for m in metas if not m["embedded_intact"]]
     known = [f for f in core.load_known("C17") if f.get("status") == "known"]
     if bad_spec:
-        bad_spec.sort(key=lambda m: (len(m["used_units"]), sum(len(s) for u in m["used_units"] for s in u["strings"])))
+        bad_spec.sort(key=lambda m: (m["position_in_process"], len(m["used_units"]),
+                                     sum(len(s) for u in m["used_units"] for s in u["strings"])))
         first = dict(bad_spec[0])
         first["offending_strings"] = shrink_desc(first)
+        # the requests the same process rendered before this one (a request may fail because of what they left behind)
+        first["earlier_requests_in_the_same_process"] = [
+            {"position_in_process": m["position_in_process"],
+             "used_units": [(u["namespace"], u["locale"]) for u in m["used_units"]],
+             "touched_outside_provider": [(t["namespace"], t["locale"]) for t in m["touched_outside_provider"]]}
+            for m in metas if m["project"] == first["project"] and m["process"] == first["process"]
+            and m["position_in_process"] < first["position_in_process"]][-12:]
         first["explanation"] = (
             "spec_C17 (Coq, Runtime/Escape.v) is false on the script found in the rendered page: it does not decode (JSON "
             "grammar) to exactly the units this request used, or it contains `</script` / `<!--` (embedded_intact tells "
@@ -496,11 +505,16 @@ def run(ctx):
     core.write_evidence(ctx, {
         "evaluations": len(metas), "distinct_nontrivial": len(nontrivial),
         "pairwise_coverage": pw,
-        "rule": "per run two (thorough: eight) generated projects, one with namespaces (string ids) and one without (null id), "
-                "1-3 (4) locales, nested subkeys, strings from the adversarial pool (quotes, backslashes, controls, </script>, "
-                "<!--, U+2028/9, astral, combining), compiled with load_locales!() under dynamic_load+ssr; requests = the empty "
-                "page, every unit alone, then random sets of 1..all units with repeated touches of different keys (plain and "
-                "interpolated, top level and inside subkeys); non-trivial = at least one unit used; distinct by (units, keys)",
+        "rule": "per run five (thorough: eleven) generated projects compiled with load_locales!() under dynamic_load+ssr: random "
+                "ones with namespaces (string ids) and without (null id), 1-3 (4) locales, nested subkeys, defaulted keys, strings "
+                "from the adversarial pool, and three class-matrix projects in which every class of text (quote, backslash, C0, C1, "
+                "NBSP, zero-width, U+2028/9, astral, combining, empty, </script>, <!--) is the first, a middle and the last string of "
+                "some unit. Requests are rendered in SEQUENCES, one server process per sequence: the empty page, random sets of "
+                "units (pages repeated), then requests chosen until every feasible pair of tag values (pairwise_coverage) is "
+                "reached: same unit in consecutive requests, first touch / repeat / mixed, after an empty page, after a page that "
+                "used every unit, accessors run outside of any provider, several locales / namespaces in one page, plain and "
+                "interpolated keys at top level and in subgroups, defaulted keys. spec_C17 is evaluated per request against the "
+                "units that request used inside the provider; non-trivial = at least one unit used; distinct by (units, keys)",
         "samples": samples, "string_classes_in_used_units": classes,
         "traces_validated_against_impl": len(metas),
         "disagreements": len(disagree), "spec_failures_on_impl": len(bad_spec),
